@@ -53,6 +53,7 @@ def run(tier):
         rows.append({"id": "rc%06d" % i, "profile": c["profile"], "cfg": c["cfg"], "variant": rnd.randrange(4)})
     obs = vlib.run_harness("report", rows, "c03", timeout=3000)
     nontriv = 0
+    noreport = []
     oby = {o["id"]: o for o in obs}
     for c, row in zip(cases, rows):
         o = oby[row["id"]]
@@ -61,16 +62,21 @@ def run(tier):
             nontriv += 1
         for entry in ("validate", "compiled"):
             got = o[entry]
-            if got.get("err") or got.get("valid"):
-                V.disagree("%s: %s" % (entry, (got.get("err") or got.get("valid"))[:60]),
-                           {"scenario": row, "expected": want, "observed": got})
+            if got.get("err"):
+                noreport.append(got["err"])      # no report, nothing for C03 to say (C07 / C17 decide whether it should exist)
+                break
+            if got.get("valid"):
+                V.disagree("%s: %s" % (entry, got["valid"][:60]), {"scenario": row, "expected": want, "observed": got})
                 break
             bad = diff_fields(want, got)
             if bad:
                 V.disagree("report field(s) %s differ" % "+".join(bad), {"scenario": row, "entry": entry, "expected": want, "observed": got})
                 break
+    if len(noreport) > len(rows) // 3:
+        raise vlib.Infra("%d of %d scenarios returned an error instead of a report: %s" % (len(noreport), len(rows), noreport[0][:300]))
     rc = V.finish()
     vlib.write_evidence("C03", tier, {
+        "scenarios_without_report": len(noreport),
         "states": sum(r.distinct for r in rs), "transitions": sum(r.generated for r in rs),
         "traces_validated_against_impl": len(rows) * 2,
         "evaluations": len(rows) * 2, "distinct_nontrivial": nontriv,
